@@ -36,7 +36,8 @@ BlankRow == [alt |-> <<>>, sq |-> <<>>, cs |-> <<>>, cat |-> <<0, 0>>, ca |-> 0,
              caps |-> <<0, 0, 0, 0, 0, 0>>, gs |-> <<>>, trk |-> <<>>, vr |-> <<>>, ss |-> 32, ver |-> <<>>,
              lat |-> 0, lon |-> 0, dist |-> <<>>, sel |-> <<>>, baro |-> <<>>, roll |-> <<>>, tar |-> <<>>,
              tas |-> <<>>, hdg |-> <<>>, ias |-> <<>>, mach |-> <<>>, thr |-> <<>>,
-             ldf |-> 0, ltc |-> 0, altg |-> <<>>, gm |-> <<>>, pts |-> <<>>, ts |-> 0]
+             ldf |-> 0, ltc |-> 0, altg |-> <<>>, gm |-> <<>>, pts |-> <<>>, ts |-> 0,
+             alts |-> 32, trks |-> 32, hdgs |-> 32, vrs |-> 95, sels |-> 32]
 
 (************************* format classification **************************)
 IsExt(f)     == DFof(f) = 17                       \* DF18 content is unconstrained (DESIGN Appendix B)
@@ -310,13 +311,37 @@ DrfTrkSurface(pre, v, f, ctx) ==
   IF (DFof(f) = 17 \/ (DFof(f) = 18 /\ UpdPath(f, ctx))) /\ TCof(f) \in 5..8
   THEN v = IF Bit(f, 45) = 1 THEN <<(Field(f, 46, 52) * 360) \div 128>> ELSE <<>>
   ELSE TRUE
-\* metric altitude codes (M = 1): N * 0.31 truncated
+\* metric altitude codes (M = 1): the code multiplies the 11 bits left after removing M and Q by 0.31 and truncates
 DrfAltM1(pre, v, f, ctx) ==
-  IF ~Free(f) /\ CarriesAlt(f) /\ AltSpecOf(f).kind = "any" /\ ~AddrOnly(f, ctx) THEN
-       LET c == IF DFof(f) \in {4, 20} THEN AC13of(f) ELSE (AC12of(f) \div 64) * 128 + (AC12of(f) % 64)
-           n == ((c \div 128) * 16) + (c % 16) + (IF DFof(f) \in {4, 20} THEN 0 ELSE 0)
-       IN  Len(v) <= 1
+  IF ~Free(f) /\ CarriesAlt(f) /\ AltSpecOf(f).kind = "any" /\ ~AddrOnly(f, ctx)
+  THEN v = <<(31 * N11(AC13of(f))) \div 100>>
   ELSE TRUE
+\* one-character source markers printed in the gutters (code points); "decoded as a squitter" = DF17, or DF18 under -U
+Sq(f, ctx) == DFof(f) = 17 \/ (DFof(f) = 18 /\ UpdPath(f, ctx))
+DrfAlts(pre, v, f, ctx) ==
+  IF Sq(f, ctx) /\ TCof(f) \in 5..8 THEN v = 8304
+  ELSE IF Sq(f, ctx) /\ TCof(f) \in 9..18 THEN v = 32
+  ELSE IF Sq(f, ctx) /\ TCof(f) = 19 /\ STof(f) \in {3, 4} THEN v = 34
+  ELSE IF DFof(f) = 4 /\ (UpdPath(f, ctx) \/ AltSpecOf(f).kind # "none") THEN v = 32 \/ v = pre.alts
+  ELSE IF DFof(f) = 20 /\ ctx.exists THEN v = 32
+  ELSE v = pre.alts
+DrfTrks(pre, v, f, ctx, trkChanged) ==
+  IF Sq(f, ctx) /\ TCof(f) \in 5..8 THEN v = IF UpdPath(f, ctx) THEN 32 ELSE 8304
+  ELSE IF Sq(f, ctx) /\ TCof(f) = 19 /\ STof(f) = 1 THEN v = 8321
+  ELSE IF Sq(f, ctx) /\ TCof(f) = 19 /\ STof(f) = 2 THEN v = 8322
+  ELSE IF IsCommB(f) THEN (v = pre.trks \/ v = 8325)
+  ELSE v = pre.trks
+DrfHdgs(pre, v, f, ctx) ==
+  IF Sq(f, ctx) /\ TCof(f) = 19 /\ STof(f) \in {3, 4} THEN v = 8323
+  ELSE IF IsCommB(f) THEN (v = pre.hdgs \/ v = 8326)
+  ELSE v = pre.hdgs
+DrfVrs(pre, v, f, ctx) ==
+  IF Sq(f, ctx) /\ TCof(f) = 19 THEN v = 32
+  ELSE IF IsCommB(f) THEN (v = pre.vrs \/ v = 8326 \/ v = 8305)
+  ELSE v = pre.vrs
+DrfSels(pre, v, f, ctx) ==
+  IF IsCommB(f) THEN (v = pre.sels \/ v = (IF MBit(f, 54) = 1 /\ MField(f, 55, 56) # 0 THEN 8320 + MField(f, 55, 56) ELSE 32))
+  ELSE v = pre.sels
 \* the position time stamp follows a successful decode
 DrfPts(pre, post, f, ctx) == (post.lat = pre.lat /\ post.lon = pre.lon) \/ post.pts = <<post.ts>>
 \* formats outside the nine: the code takes bits 9-32 as the address; DF18 on the default path changes nothing but the stamp
